@@ -2,7 +2,7 @@
 
 Level: *partial* for this technique.  Lean proves non-interference of the inventoried hidden state; that no
 other hidden state exists is established here: the AST inventory (tools/scan_state.py) must equal the reviewed
-baseline committed in Props/C19.lean, and ~130 public codec entry points are run in random interleavings, every
+baseline committed in Props/C19.lean, and ~210 public codec entry points are run in random interleavings, every
 result compared with the same call executed FIRST in a fresh interpreter state (c19_worker.py fork server).
 """
 import json
